@@ -4,7 +4,8 @@ import PsModel.Drv.C07
 /-! line-protocol front end of the C06 model
 
 ```
-C06 (next <tspecs> <now> <startup> <suntab> <cronnext> <utcoff>)   → next=<t|none> adj=<t|none> | raise
+C06 (next <tspecs> <now> <startup> <suntab> <cronnext> <utcoff>)   → next=<t|none> adj=<t|none> | raise   (the code as it is)
+C06 (next-pre <tspecs> <now> <startup> <suntab> <cronnext> <utcoff>)                                        (before fix c80f3bb)
 C06 (chain <tspecs> <startup> <n> <horizon> <su> <sd> <suntab> <cronnext> <utcoff>)
                                                                    → [startup] t1 t2 … [shutdown]: the runs of a trigger loop
                                                                      started at `startup` and removed at `horizon`
@@ -15,8 +16,9 @@ dt      = (at <date> <time> <offast|none>) | (now <offast|none>)       (date/tim
 offast  = (neg mant dec unit)
 cronnext = ((id t next) …)      utcoff = ((t off) …)
 ```
-`num/den` is the exact value of the Python float `period` (float.as_integer_ratio), from which `fdiv` is computed with the
-same IEEE operations as `math.floor((now - start).total_seconds() / period)`.
+`num/den` is the exact value of the Python float `period` (float.as_integer_ratio).  It is only used by `next-pre`
+(`TFlags.preFix`), where `fdiv` is computed with the same IEEE operations as the pre-fix
+`math.floor((now - start).total_seconds() / period)`; `next` and `chain` run `TFlags.current`: exact integer division.
 -/
 namespace PsModel.C06
 open PsModel PsModel.C07
@@ -83,11 +85,12 @@ def showOI : Option Int → String
 
 def handle (x : Sexp) : String :=
   match x with
-  | .list [.atom "next", specs, now, startup, sunTab, cn, uo] =>
+  | .list [.atom cmd, specs, now, startup, sunTab, cn, uo] =>
+    if cmd != "next" && cmd != "next-pre" then "err bad-command" else
     match Sexp.listOf? tspec? specs, now.int?, startup.int?, Sexp.listOf? sunRow? sunTab, Sexp.listOf? cronRow3? cn,
         Sexp.listOf? offRow? uo with
     | some ss, some n, some st, some sun, some cnT, some uoT =>
-      match timerNext (mkParams ss sun cnT uoT) (ss.map (·.1)) n st with
+      match timerNext (if cmd == "next-pre" then TFlags.preFix else TFlags.current) (mkParams ss sun cnT uoT) (ss.map (·.1)) n st with
       | some r => s!"next={showOI r.next} adj={showOI r.adj}"
       | none => "raise"
     | _, _, _, _, _, _ => "err parse"
@@ -95,7 +98,7 @@ def handle (x : Sexp) : String :=
     match Sexp.listOf? tspec? specs, startup.int?, cnt.nat?, hor.int?, su.bool?, sd.bool?, Sexp.listOf? sunRow? sunTab,
         Sexp.listOf? cronRow3? cn, Sexp.listOf? offRow? uo with
     | some ss, some st, some k, some h, some su, some sd, some sun, some cnT, some uoT =>
-      let body := ((timeLoop (mkParams ss sun cnT uoT) (ss.map (·.1)) st (fun _ => 1) k st).filter (fun t => t ≤ h)).map toString
+      let body := ((timeLoop TFlags.current (mkParams ss sun cnT uoT) (ss.map (·.1)) st (fun _ => 1) k st).filter (fun t => t ≤ h)).map toString
       " ".intercalate ((if su then ["startup"] else []) ++ body ++ (if sd then ["shutdown"] else []))
     | _, _, _, _, _, _, _, _, _ => "err parse"
   | .list [.atom "off", o] =>
